@@ -1,8 +1,11 @@
 //! vcheck <ID> [--tier quick|thorough] [--replay <file>]
 mod c01;
 mod c02;
+mod c03;
 mod c05;
 mod c06;
+mod c09;
+mod c15;
 mod c18;
 mod c19;
 mod common;
@@ -36,6 +39,16 @@ fn registry(id: &str) -> Option<PropDef> {
             subs: vec![random::<c02::IndexAddresses>()],
             assumptions: vec!["record offsets come from the independent strict decoder"],
         },
+        "C03" => PropDef {
+            level: "exploration",
+            subs: vec![random::<c03::Foreign>()],
+            assumptions: vec!["the reference encoder in vlib/refcodec.rs defines 'spec-conformant' (pinned to third-party fixtures at start-up)", "ring roles asserted only where the signed area is exactly computable and non-zero"],
+        },
+        "C14" => PropDef {
+            level: "exploration",
+            subs: vec![random::<c03::IndexOnly>()],
+            assumptions: vec!["filler runs have even length because index offsets are expressed in 16-bit words"],
+        },
         "C05" => PropDef {
             level: "exploration",
             subs: vec![random::<c05::Boxes>()],
@@ -45,6 +58,21 @@ fn registry(id: &str) -> Option<PropDef> {
             level: "exploration",
             subs: vec![random::<c06::Typed>()],
             assumptions: vec!["the 13 x 14 (requested, actual) matrix is covered completely by every generated file; file contents are sampled"],
+        },
+        "C09" => PropDef {
+            level: "exploration",
+            subs: vec![enumerated::<c09::Interleave>()],
+            assumptions: vec!["complete within the stated history-length bound for one generated pair of shapes per type (pair changes with VERIF_SEED)"],
+        },
+        "C10" => PropDef {
+            level: "exploration",
+            subs: vec![enumerated::<c09::OneType>()],
+            assumptions: vec!["complete within the stated history-length bound; the complete Writer has no finalize, so its histories contain writes only"],
+        },
+        "C15" => PropDef {
+            level: "exploration",
+            subs: vec![enumerated::<c15::Histories>()],
+            assumptions: vec!["complete within the stated history-length bound; a read_nth that returns None is modelled as leaving the reader's position unchanged"],
         },
         "C18" => PropDef {
             level: "exploration",
